@@ -62,11 +62,18 @@ const (
 	runTimeout = 60 * time.Second
 )
 
-func genWorkload(t *rapid.T) *workload {
+func genWorkload(t *rapid.T, first bool) *workload {
 	w := &workload{}
 	s := &w.spec
 	s.Depth = rapid.IntRange(0, 2).Draw(t, "depth")
 	s.Generic = rapid.IntRange(0, 2).Draw(t, "writer") == 0
+	if first {
+		// the first workload of a shard takes its writer from the shard number, so that even a run that is cut
+		// to one workload per shard by the time budget covers both writers (deterministic partition, like an
+		// enumeration over shards)
+		k, _ := ev.Shard()
+		s.Generic = k%2 == 1
+	}
 	s.CntLim = rapid.SampledFrom([]int{1, 2, 3, 128}).Draw(t, "cntLim")
 	s.Thr = rapid.SampledFrom([]int{400, 2048, 128 << 10}).Draw(t, "thr")
 	s.SizeLim = rapid.SampledFrom([]int{300, 1500, 8 << 20}).Draw(t, "sizeLim")
@@ -223,7 +230,7 @@ func TestC12CrashPoints(t *testing.T) {
 	budget := fshelper.NewBudget(45*time.Second, 1)
 	cases := 0
 	rapid.Check(t, func(t *rapid.T) {
-		w := genWorkload(t)
+		w := genWorkload(t, cases == 0)
 		order := rapid.Uint64().Draw(t, "pointOrder")
 		if cases > 0 && budget.Exceeded() {
 			// the time budget of this run is used up: later workloads are not enumerated (reported, not a verdict)
